@@ -98,15 +98,16 @@ class Gen:
             self.forbidden.append(k)
         return k
 
-    def probe_ref(self, key):
-        """A probe, possibly reached through a (shell-specific) definition.  `key` identifies the occurrence for printing."""
+    def probe_ref(self, setname):
+        """A probe, possibly reached through a (shell-specific) definition.  `setname(name)` records on the occurrence that it
+        is printed as <name>."""
         r = self.rng
         k = self.new_probe()
         how = r.below(10)
         if how < 5:
             return k            # inline {{{ }}}
         name = "%s%d" % (r.choice(NT_NAMES), k)
-        self.nt_of[key] = name
+        setname(name)
         if how < 7:
             self.defs.append(("plain", name, k))
         elif how < 9:
@@ -156,10 +157,10 @@ class Gen:
             if kind == "probe":
                 if same and first_k is not None:
                     parts[i] = ("probe", first_k)
-                    if (id(leaf), first_i) in self.nt_of:
-                        self.nt_of[(id(leaf), i)] = self.nt_of[(id(leaf), first_i)]
+                    if first_i in leaf.part_nt:
+                        leaf.part_nt[i] = leaf.part_nt[first_i]
                 else:
-                    k = self.probe_ref((id(leaf), i))
+                    k = self.probe_ref(lambda name, i=i: leaf.part_nt.__setitem__(i, name))
                     parts[i] = ("probe", k)
                     if first_k is None:
                         first_k, first_i = k, i
@@ -173,8 +174,8 @@ class Gen:
         two automata with equal input sets and equal shape that must nevertheless stay two automata."""
         leaf = Leaf("sw", parts=[src.parts[2], src.parts[1], src.parts[0]])
         for i, j in ((0, 2), (2, 0)):
-            if (id(src), j) in self.nt_of:
-                self.nt_of[(id(leaf), i)] = self.nt_of[(id(src), j)]
+            if j in src.part_nt:
+                leaf.part_nt[i] = src.part_nt[j]
         return leaf
 
     def leaf(self, allow_any):
@@ -184,7 +185,7 @@ class Gen:
             return Leaf("lit", text=self.lit())
         if k < 62:
             l = Leaf("probe")
-            l.k = self.probe_ref(id(l))
+            l.k = self.probe_ref(lambda name: setattr(l, "nt", name))
             return l
         if k < 92:
             return self.sw()
@@ -196,9 +197,9 @@ class Gen:
     def expr(self, depth, budget, in_fb=False):
         n = self._expr(depth, budget, in_fb)
         # reach the subtree through a definition (so that commands are also "reached through definitions" of any depth)
-        if depth > 0 and self.rng.chance(1, 5) and id(n) not in self.nt_of and not (isinstance(n, Leaf) and n.kind == "any"):
+        if depth > 0 and self.rng.chance(1, 5) and not n.nt and not (isinstance(n, Leaf) and n.kind == "any"):
             name = "%s%d" % (self.rng.choice(["SUB", "GROUP", "OPTS", "TARGET"]), len(self.subdefs))
-            self.nt_of[id(n)] = name
+            n.nt = name
             self.subdefs.append((name, n))
         return n
 
@@ -215,7 +216,7 @@ class Gen:
             n = r.range(2, 4)
             kids = []
             for i in range(n):
-                if i > 0 and r.chance(1, 6) and isinstance(kids[-1], Leaf) and kids[-1].kind in ("lit", "probe") and id(kids[-1]) not in self.nt_of:
+                if i > 0 and r.chance(1, 6) and isinstance(kids[-1], Leaf) and kids[-1].kind in ("lit", "probe") and not kids[-1].nt:
                     # <_> only right after a plain single item, so that it never shares a point with anything else
                     self.anys += 1
                     kids.append(Leaf("any"))
@@ -319,13 +320,13 @@ def gen_case(rng):
         # renumbering the loop's command transitions lead back to the start state
         tag = Leaf("lit", text=g.lit())
         pa = Leaf("probe")
-        pa.k = g.probe_ref(id(pa))
+        pa.k = g.probe_ref(lambda name: setattr(pa, "nt", name))
         body = Node("seq", [tag, pa]) if rng.chance(2, 3) else pa
         alts = [body] + ([Leaf("lit", text=g.lit())] if rng.chance(1, 2) else [])
         loop = Node("many", [Node("opt", [Node("alt", alts) if len(alts) > 1 else body])])
         if rng.chance(1, 2):
             pb = Leaf("probe")
-            pb.k = g.probe_ref(id(pb))
+            pb.k = g.probe_ref(lambda name: setattr(pb, "nt", name))
             tail = pb
         else:
             tail = Leaf("lit", text=g.lit())
